@@ -1,13 +1,51 @@
 (* C01 -- decoding the XDR encoding of any value returns that value.
-   See XdrProofs.RoundTrip for the development; this file holds the statements. *)
-From XdrProofs Require Import RuntimeProofs.
+   For every specification whose Ast satisfies `sup` (decidable: sup_b, evaluated on every
+   specification of the corpus at each run), for every declared type n and every well-typed
+   value x (TypedN, the RFC 4506 typing of Spec.v) in which no element of a counted array
+   carries an inline variable-length opaque (step_exact -- the frontier of finding F1), for
+   every fuel >= need x, every allocation, offset, suffix and ledger:
+   the emitted decoder (Sem.dec over Emit.gen, the model of impls/from.rs + header.rs, tied to
+   the real generator by K2 and to the compiled decoders by K3) returns exactly the value
+   rv a o x -- every field, array element in order, optional link, union arm and opaque/string
+   payload, with each opaque payload a view at its wire offset -- and leaves the cursor exactly
+   after the encoding, with the suffix untouched.
+   Proofs in XdrProofs.RoundTrip / UnionProofs / SupB. *)
+From XdrProofs Require Import SupB.
+From XdrModel Require Import SpecB.
 Open Scope N_scope.
 Open Scope list_scope.
 
-(* counted arrays whose elements are variable-sized: for ANY element decoder / wire_size
-   that satisfy the element contract (decoding the encoding e_i of the i-th element, whatever
-   follows it, yields v_i, and v_i.wire_size() = |e_i|), the array reader returns exactly
-   v_1 .. v_n in order and leaves the cursor after the last element *)
+Theorem C01_roundtrip :
+  forall (A : ast) (md : module_ir),
+    gen A = EOk md -> sup A ->
+    forall (n : string) (x : xval) (fuel : nat) (a o : N) (rest : bytes) (l : list resv),
+      TypedN A n x -> (need x <= fuel)%nat -> step_exact x = true ->
+      exists l', dec md fuel n (mk a o (enc x ++ rest) l)
+                 = Ok (rv a o x) (mk a (o + len (enc x)) rest l').
+Proof. exact roundtrip_closed. Qed.
+Print Assumptions C01_roundtrip.
+
+(* the hypothesis is decidable *)
+Theorem C01_sup_decidable : forall A, sup_b A = true -> sup A.
+Proof. exact sup_b_sound. Qed.
+Print Assumptions C01_sup_decidable.
+
+(* the by-value family: the same body on its own copy of the cursor (its cursor is dropped) *)
+Corollary C01_roundtrip_by_value :
+  forall (A : ast) (md : module_ir),
+    gen A = EOk md -> sup_b A = true ->
+    forall (n : string) (x : xval) (fuel : nat) (a o : N) (rest : bytes) (l : list resv),
+      TypedN A n x -> (need x <= fuel)%nat -> step_exact x = true ->
+      exists s', on_clone (dec md fuel n) (mk a o (enc x ++ rest) l) = Ok (rv a o x) s'.
+Proof.
+  intros A md Hg Hs n x fuel a o rest l T Hf Hse.
+  destruct (roundtrip_closed A md Hg (sup_b_sound A Hs) n x fuel a o rest l T Hf Hse) as [l' H].
+  unfold on_clone. rewrite H. eexists. reflexivity.
+Qed.
+Print Assumptions C01_roundtrip_by_value.
+
+(* counted arrays whose elements are variable-sized: the array reader, for ANY element
+   decoder / wire_size that satisfy the trait contract *)
 Theorem C01_counted_array :
   forall elem_name dec_elem wsz_elem (items : list (bytes * rval * list resv)) max fuel a o rest l,
     Forall (fun i => elem_ok dec_elem wsz_elem (fst (fst i)) (snd (fst i)) (snd i)) items ->
@@ -23,3 +61,64 @@ Theorem C01_counted_array :
                 ++ concat (map (fun i => snd i) items))).
 Proof. exact read_variable_array_ok. Qed.
 Print Assumptions C01_counted_array.
+
+(* ---------- non-vacuity: a specification with a union, a typedef'd opaque, a counted array of
+   variable-sized structs and an optional chain; and the F1 frontier ---------- *)
+
+Definition A_demo : ast :=
+  {| constants := [("MAXN"%string, ConstValue "3"); ("OK"%string, EnumValue "status" "OK"); ("BAD"%string, EnumValue "status" "BAD")];
+     types := [
+       ("blob"%string, TTypedef {| td_target := Opaque; td_alias := ANone (Ident "blob") |});
+       ("item"%string, TStruct {| st_name := "item"; st_fields := [
+           {| sf_name := "name"; sf_value := AVar TString (Some (Known 8)); sf_optional := false |};
+           {| sf_name := "body"; sf_value := ANone (Ident "blob"); sf_optional := false |}] |});
+       ("list"%string, TStruct {| st_name := "list"; st_fields := [
+           {| sf_name := "items"; sf_value := AVar (Ident "item") (Some (Constant "MAXN")); sf_optional := false |};
+           {| sf_name := "next"; sf_value := ANone (Ident "list"); sf_optional := true |}] |});
+       ("reply"%string, TUnion {| un_name := "reply"; un_cases := [
+           {| uc_values := ["OK"%string]; uc_name := "l"; uc_value := ANone (Ident "list") |}];
+           un_default := None; un_void := ["BAD"%string]; un_sw_name := "st"; un_sw_type := Ident "status" |});
+       ("status"%string, TEnum {| en_name := "status"; en_variants := [("OK"%string, VNum 0); ("BAD"%string, VNum 7)] |})];
+     generics := ["blob"; "item"; "list"; "reply"]%string |}.
+
+Definition x_demo : xval :=
+  XUnion "reply" (XEnum "status" "OK" 0) "OK"
+    (Some (XStruct "list"
+       [XArrV [XStruct "item" [XString [104; 105]; XAlias "blob" (XOpaqueV [1; 2; 3])];
+               XStruct "item" [XString []; XAlias "blob" (XOpaqueV [])]];
+        XOpt (Some (XStruct "list" [XArrV []; XOpt None]))])).
+
+Example C01_nonvacuous :
+  sup_b A_demo = true /\ typed_n A_demo 20 "reply" x_demo = true /\ step_exact x_demo = true /\
+  len (enc x_demo) = 44 /\
+  match gen A_demo with
+  | EOk md => String.eqb (run_case md "reply" 0 (enc x_demo)) (ref_line x_demo 0)
+  | _ => false
+  end = true.
+Proof. repeat split; vm_compute; reflexivity. Qed.
+
+(* finding F1: with an inline variable-length opaque in the element of a counted array the
+   second element is decoded 4 bytes early -- the decoder returns Ok with a different value *)
+Definition A_f1 : ast :=
+  {| constants := [];
+     types := [("holder"%string, TStruct {| st_name := "holder"; st_fields := [
+                  {| sf_name := "items"; sf_value := AVar (Ident "inner") None; sf_optional := false |}] |});
+               ("inner"%string, TStruct {| st_name := "inner"; st_fields := [
+                  {| sf_name := "a"; sf_value := ANone U32; sf_optional := false |};
+                  {| sf_name := "data"; sf_value := AVar Opaque None; sf_optional := false |}] |})];
+     generics := ["holder"; "inner"]%string |}.
+
+Definition x_f1 : xval :=
+  XStruct "holder" [XArrV [XStruct "inner" [XU32 1; XOpaqueV []]; XStruct "inner" [XU32 2; XOpaqueV []]]].
+
+Theorem C01_refuted_F1 :
+  sup_b A_f1 = true /\ typed_n A_f1 20 "holder" x_f1 = true /\ step_exact x_f1 = false /\
+  match gen A_f1 with
+  | EOk md => match dec md 10 "holder" (mk 1 0 (enc x_f1) []) with
+              | Ok v _ => negb (String.eqb (show_rval 1 v) (show_rval 1 (rv 1 0 x_f1)))
+              | _ => false
+              end
+  | _ => false
+  end = true.
+Proof. repeat split; vm_compute; reflexivity. Qed.
+Print Assumptions C01_refuted_F1.
